@@ -20,6 +20,36 @@ Theorem C03_order_spec : forall asgi indep cs st q,
 Proof. exact order_spec. Qed.
 Print Assumptions C03_order_spec.
 
+(* Stacks built in several steps (constructor argument, then add_middleware calls, each a
+   bare component or an iterable): every call re-prepares the whole accumulated list, so
+   after a call that returned normally the prepared stacks are those of the concatenation,
+   and the discipline holds for the concatenated component list for EVERY batch split. *)
+Theorem C03_add_all_unprepared : forall asgi indep bs a,
+  a_unprepared (fst (add_all asgi indep a bs)) = a_unprepared a ++ flatten bs.
+Proof. exact add_all_unprepared. Qed.
+Print Assumptions C03_add_all_unprepared.
+
+Theorem C03_add_all_stacks : forall asgi indep a bs b a',
+  add_middleware asgi indep (fst (add_all asgi indep a bs)) b = (a', true) ->
+  fst (add_all asgi indep a (bs ++ [b])) = a' /\
+  a_stacks a' = prepare asgi indep (a_unprepared a ++ flatten (bs ++ [b])).
+Proof. exact add_all_stacks. Qed.
+Print Assumptions C03_add_all_stacks.
+
+Theorem C03_order_spec_batches : forall asgi indep b0 bs b a0 a' q st,
+  new_app asgi indep b0 = Some a0 ->
+  add_middleware asgi indep (fst (add_all asgi indep a0 bs)) b = (a', true) ->
+  a_stacks a' = Some st ->
+  run_request indep st q = spec_trace indep (flatten (b0 :: bs ++ [b])) q.
+Proof. exact order_spec_batches. Qed.
+Print Assumptions C03_order_spec_batches.
+
+Theorem C03_order_spec_constructor : forall asgi indep b0 a0 q st,
+  new_app asgi indep b0 = Some a0 -> a_stacks a0 = Some st ->
+  run_request indep st q = spec_trace indep (batch_list b0) q.
+Proof. exact order_spec_constructor. Qed.
+Print Assumptions C03_order_spec_constructor.
+
 (* A tower of before/after decorators runs the before-hooks outermost first, the responder,
    then the after-hooks innermost first, stopping at the first raise. *)
 Theorem C03_hooks_flat : forall hs j r cpl,
@@ -151,6 +181,8 @@ Definition ex_cs : list comp :=
        c_startup := Some LFail; c_shutdown := None |};
     {| c_req := Some Return; c_rsrc := None; c_resp := Some (RaiseApp HRaiseHTTP);
        c_startup := Some LOk; c_shutdown := Some LOk |} ].
+Definition mk_dummy : comp :=
+  {| c_req := None; c_rsrc := None; c_resp := None; c_startup := None; c_shutdown := None |}.
 Definition ex_q : request :=
   {| q_meta := false; q_route := Routed; q_hooks := [(true, Return); (false, Complete)];
      q_responder := Return |}.
@@ -177,6 +209,12 @@ Example C03_full_cycle_example :
       ECall SResponder Return; ECall (SHook 1) Complete; EResp 0 Return true true],
      Finished true).
 Proof. eexists. split; [reflexivity|]. vm_compute. reflexivity. Qed.
+
+Example C03_batches_example :
+  exists a0 a1 st, new_app false true (BOne (nth 0 ex_cs (mk_dummy))) = Some a0 /\
+  add_middleware false true a0 (BMany (skipn 1 ex_cs)) = (a1, true) /\
+  a_stacks a1 = Some st /\ prepare false true ex_cs = Some st.
+Proof. do 3 eexists. repeat split; reflexivity. Qed.
 
 Example C03_lifespan_example :
   lifespan ex_cs [LStartup; LShutdown] =
